@@ -28,11 +28,14 @@ Theorem C19_C_spec_has_no_name : forall d, import_spec s_C d = GoQuote s_C.
 Proof. intros d. unfold import_spec. rewrite str_eqb_refl. cbn [negb]. rewrite andb_false_r. reflexivity. Qed.
 
 (* With a preamble: the other imports (without "C") come first, then the preamble comments
-   in the order given, each followed by one newline, then `import "C"` on its own. *)
+   in the order given, each followed by one newline, then `import "C"` on its own.  A block
+   given in raw comment form (it starts with `//` or `/*`, and is written verbatim) first
+   loses its trailing newlines ([trim_raw_preamble], Model/FileRender.v; its properties are
+   in Props/C19_lex.v), so that the newline added here is the only one after it. *)
 Theorem C19_preamble_adjacent : forall t cgo, cgo <> [] ->
   render_imports t cgo =
     main_block (filter (fun e => negb (str_eqb (fst e) s_C)) t) ++
-    concat_str (map (fun c => comment_text c ++ [x0a]) cgo) ++
+    concat_str (map (fun c => comment_text (trim_raw_preamble c) ++ [x0a]) cgo) ++
     S "import " ++ [c_dq] ++ S "C" ++ [c_dq] ++ [x0a; x0a].
 Proof.
   intros t cgo Hne. unfold render_imports, main_block.
@@ -61,4 +64,17 @@ Example C19_example :
   render_imports t [S "#include <a.h>"] =
     S "import pkg_d " ++ [c_dq] ++ S "a.b/d" ++ [c_dq] ++ [x0a; x0a] ++
     S "// #include <a.h>" ++ [x0a] ++ S "import " ++ [c_dq] ++ S "C" ++ [c_dq] ++ [x0a; x0a].
+Proof. vm_compute. split; reflexivity. Qed.
+
+(* A preamble block in raw comment form that ends in newlines: they are dropped and ONE is
+   written, so no empty line stands between the comment and the import (the code without
+   [trim_raw_preamble] wrote two newlines here, and cgo ignored the detached comment); a
+   block that is not raw keeps its text. *)
+Example C19_raw_trailing_newline_text :
+  render_imports [] [S "// #include <a.h>" ++ [x0a]] =
+    S "// #include <a.h>" ++ [x0a] ++ S "import " ++ [c_dq] ++ S "C" ++ [c_dq] ++ [x0a; x0a] /\
+  render_imports [] [S "/* int f(); */" ++ [x0a; x0a]; S "int g();" ++ [x0a]] =
+    S "/* int f(); */" ++ [x0a] ++
+    S "/*" ++ [x0a] ++ S "int g();" ++ [x0a] ++ S "*/" ++ [x0a] ++
+    S "import " ++ [c_dq] ++ S "C" ++ [c_dq] ++ [x0a; x0a].
 Proof. vm_compute. split; reflexivity. Qed.
